@@ -166,6 +166,31 @@ def main():
                                  part=part, nparts=nparts, seed=0, pure=(impl == 'py')))
     results = jobs.run_jobs('harness.workers.persist_worker', plan, pure=True)
     validate(ck, results, 'all histories of length %d over 3 keys' % L)
+    # 4. contents level, whole mutating API, every kind (LeafStore.tla): a container kept as one database record - a
+    #    stand-alone Bucket / Set, or a BTree / TreeSet small enough to be stored as one inline leaf (default node
+    #    sizes) - driven through the whole API (update, pop, popitem, setdefault, insert, discard, in-place set
+    #    operators with every kind of operand, clear, failing calls) and cut into transactions; a fresh reader after
+    #    every commit, the writer after every abort.  TLC first: ReaderOK / AbortOK, and the deviation must be refuted.
+    lcfg = "SPECIFICATION LSpec\nCONSTANTS\n LKeys = {1,2,3}\n LVals = {1,2}\n LDev = {%s}\nINVARIANT ReaderOK\nINVARIANT AbortOK\n"
+    r = tlc.run('LeafStore', lcfg % '', timeout=1200)
+    ck.add_tlc(r.summary(), 'LeafStore keys=3 vals=2')
+    common.tlc_verdict(ck, r, 'LeafStore')
+    r = tlc.run('LeafStore', lcfg % '"SilentOp"', timeout=1200)
+    if r.violation != 'ReaderOK':
+        common.machinery_failure('LeafStore with a silent change was not refuted')
+    from harness import tracecheck
+    hplan = []
+    for fam in (['II', 'OO', 'LF', 'fs', 'OI'] if quick else embed.FAMILIES):
+        for impl in ('c', 'py'):
+            for kind in ('Bucket', 'Set', 'BTree', 'TreeSet'):
+                if fam == 'fs' and kind in ('Set', 'TreeSet') and False:
+                    continue
+                hplan.append(dict(fam=fam, impl=impl, kind=kind, emb='ext' if len(hplan) % 3 == 0 else 'mid', nkeys=12,
+                                  ntraces=(12 if impl == 'c' else 6) if quick else 120, length=60 if quick else 120,
+                                  seed=ck.seed * 1000 + 700 + len(hplan), jar=True, pure=(impl == 'py')))
+    tracecheck.run_leaf_histories(ck, hplan)
+    if not ck.notes.get('leafstore_commits') or not ck.notes.get('leafstore_aborts'):
+        common.machinery_failure('no commit / abort in the transactional histories')
     ck.assumptions += ['the data manager is a stand-in (harness/minijar.py) that writes in ZODB\'s order: registered objects '
                        'first-come, newly reached objects last-in first-out',
                        'model keys/values embedded per family; node sizes set on the classes']
